@@ -475,6 +475,54 @@ def many_workers_stage(c):
     d.close()
 
 
+def stub_deadline_stage(c):
+  """The in-process service answers a call however long it takes.  The stubs the library hands out
+  (stubs_util.create_vizier_server_stub / create_pythia_server_stub: what DefaultVizierServer.stub, the client
+  library with an endpoint and the separate Pythia server use) must not put a DEADLINE on the calls made through
+  them, or a call that runs longer (a slow algorithm) is answered DEADLINE_EXCEEDED behind gRPC only.  Observed on
+  the server side: the time the call's context has left (None / effectively unbounded without a deadline)."""
+  from concurrent import futures
+  import grpc
+  from google.protobuf import empty_pb2
+  from vizier._src.service import stubs_util, vizier_service, pythia_service
+  from vizier._src.service import vizier_service_pb2 as vsp, vizier_service_pb2_grpc, pythia_service_pb2_grpc
+  seen = {}
+
+  class RecVizier(vizier_service.VizierServicer):
+    def ListStudies(self, request, context=None):
+      seen['vizier'] = None if context is None else context.time_remaining()
+      return vsp.ListStudiesResponse()
+
+  class RecPythia(pythia_service.PythiaServicer):
+    def Ping(self, request, context=None):
+      seen['pythia'] = None if context is None else context.time_remaining()
+      return empty_pb2.Empty()
+  server = grpc.server(futures.ThreadPoolExecutor(max_workers=4))
+  vizier_service_pb2_grpc.add_VizierServiceServicer_to_server(RecVizier(database_url=None), server)
+  pythia_service_pb2_grpc.add_PythiaServiceServicer_to_server(RecPythia(), server)
+  port = server.add_insecure_port('localhost:0')
+  server.start()
+  try:
+    ep = 'localhost:%d' % port
+    stubs_util.create_vizier_server_stub(ep).ListStudies(vsp.ListStudiesRequest(parent='owners/o'))
+    if hasattr(RecPythia, 'Ping'):
+      try:
+        stubs_util.create_pythia_server_stub(ep).Ping(empty_pb2.Empty())
+      except Exception:  # pylint: disable=broad-except
+        pass
+  finally:
+    server.stop(0)
+  for which, left in sorted(seen.items()):
+    c.traces += 1
+    c.count(1, ('stub-deadline', which), kind='stub-deadline:' + which)
+    if left is not None and left < 3600.0:
+      c.prop_fail('stub-imposes-call-deadline:' + which,
+                  'a call made through the %s stub of stubs_util reaches the server with %.1f s left: calls through the '
+                  'library\'s stubs carry a deadline, the in-process service has none - a call that runs longer (a slow '
+                  'algorithm) is answered DEADLINE_EXCEEDED behind gRPC while the in-process service returns its result' % (which, left),
+                  {'stub': which, 'time_remaining_seconds': left})
+
+
 def run(c):
   # translator: regenerate the exception -> status facts from the current source (proof obligations)
   from translators import error_table
@@ -489,6 +537,7 @@ def run(c):
   hosted_histories(c)
   client_programs(c)
   many_workers_stage(c)
+  stub_deadline_stage(c)
   svc.cleanup()
   return c.finish(
       level='proof',
